@@ -144,6 +144,15 @@ func (P *Prog) buildRecDef(sf *SpecFunc) (string, []heapParam) {
 	st.top = "0"
 	env := &Env{st: st, vars: map[string]Val{}, pkg: sf.Pkg}
 	var binders, sorts, args []string
+	var rps []recParam
+	defer func() {
+		P.mu.Lock()
+		if P.recParams == nil {
+			P.recParams = map[string][]recParam{}
+		}
+		P.recParams[sf.Name] = rps
+		P.mu.Unlock()
+	}()
 	for _, p := range sf.Params {
 		nm := "v_" + p.Name
 		if strings.HasPrefix(p.Type, "row:") {
@@ -153,6 +162,7 @@ func (P *Prog) buildRecDef(sf *SpecFunc) (string, []heapParam) {
 			binders = append(binders, "("+nm+" "+srt+")")
 			sorts = append(sorts, srt)
 			args = append(args, nm)
+			rps = append(rps, recParam{srt, 0})
 			continue
 		}
 		if p.Type == "bytes" || p.Type == "floats" {
@@ -160,6 +170,7 @@ func (P *Prog) buildRecDef(sf *SpecFunc) (string, []heapParam) {
 			binders = append(binders, "("+nm+" (Array Int Int))")
 			sorts = append(sorts, "(Array Int Int)")
 			args = append(args, nm)
+			rps = append(rps, recParam{"(Array Int Int)", 0})
 			continue
 		}
 		t := x.resolveType(sf.Pkg, p.Type)
@@ -167,10 +178,21 @@ func (P *Prog) buildRecDef(sf *SpecFunc) (string, []heapParam) {
 			env.vars[p.Name] = specInt(nm)
 			binders = append(binders, "("+nm+" Int)")
 			sorts = append(sorts, "Int")
+			rps = append(rps, recParam{"Int", 0})
 		} else {
 			env.vars[p.Name] = x.mkVal(nm, t)
 			binders = append(binders, "("+nm+" "+P.ss.sortOf(t)+")")
 			sorts = append(sorts, P.ss.sortOf(t))
+			ref := 0
+			switch P.ss.kindOf(t) {
+			case KPtr:
+				ref = 1
+			case KSlice:
+				ref = 2
+			case KStruct, KIface, KFunc, KTuple, KOpaque:
+				ref = 3
+			}
+			rps = append(rps, recParam{P.ss.sortOf(t), ref})
 		}
 		args = append(args, nm)
 	}
@@ -400,4 +422,127 @@ func (P *Prog) mentionsTransitively(goal, name string) bool {
 		return false
 	}
 	return visit(goal)
+}
+
+// frameAxioms: the value of a heap-reading specification function depends only on the objects reachable
+// from its reference arguments. For two heap versions Hs, Hs' read by the same function f in one
+// obligation, with T the allocator top when the earlier version was read: if the heaps agree on every
+// object <= T, then f(a, Hs) = f(a, Hs') for all arguments a whose references are <= T.
+// (Reads framing as in Dafny; rests on type safety: a cell of an allocated object never refers to an
+// unallocated object.)
+func (P *Prog) frameAxioms(asserts []string) []string {
+	P.mu.Lock()
+	defer P.mu.Unlock()
+	if len(P.tupleTop) == 0 {
+		return nil
+	}
+	tuples := map[string][]string{} // f -> distinct heap tuples (text)
+	seen := map[string]bool{}
+	var collect func(e *sexp)
+	collect = func(e *sexp) {
+		if e == nil || e.isAtom() {
+			return
+		}
+		if hk, ok := P.recHeapKeys[e.head()]; ok && len(hk) > 0 {
+			rp := P.recParams[e.head()]
+			if len(e.kids)-1 == len(rp)+len(hk) {
+				var hs []string
+				for _, k := range e.kids[1+len(rp):] {
+					hs = append(hs, k.String())
+				}
+				key := e.head() + " " + strings.Join(hs, " ")
+				if _, known := P.tupleTop[key]; known && !seen[key] {
+					seen[key] = true
+					tuples[e.head()] = append(tuples[e.head()], strings.Join(hs, " "))
+				}
+			}
+		}
+		for _, k := range e.kids {
+			collect(k)
+		}
+	}
+	for _, a := range asserts {
+		if strings.Contains(a, "(") {
+			collect(parseSexp(a))
+		}
+	}
+	topNum := func(t string) int {
+		i := strings.LastIndex(t, "_")
+		n := 0
+		if i >= 0 {
+			fmt.Sscanf(t[i+1:], "%d", &n)
+		}
+		return n
+	}
+	var fs []string
+	for f := range tuples {
+		fs = append(fs, f)
+	}
+	sort.Strings(fs)
+	var out []string
+	for _, f := range fs {
+		ts := tuples[f]
+		if len(ts) < 2 {
+			continue
+		}
+		rp := P.recParams[f]
+		ok := true
+		for _, p := range rp {
+			if p.ref == 3 {
+				ok = false
+			}
+		}
+		if !ok {
+			continue
+		}
+		ref := 0
+		for i := range ts {
+			if topNum(P.tupleTop[f+" "+ts[i]]) < topNum(P.tupleTop[f+" "+ts[ref]]) {
+				ref = i
+			}
+		}
+		T := P.tupleTop[f+" "+ts[ref]]
+		ha := strings.Fields(ts[ref])
+		var binders, args, argOK []string
+		for i, p := range rp {
+			v := fmt.Sprintf("fa_%d", i)
+			binders = append(binders, "("+v+" "+p.sort+")")
+			args = append(args, v)
+			switch p.ref {
+			case 1:
+				argOK = append(argOK, fmt.Sprintf("(<= %s %s)", v, T), fmt.Sprintf("(=> (< %s 0) (<= (div (- 0 %s) 64) %s))", v, v, T))
+			case 2:
+				argOK = append(argOK, fmt.Sprintf("(<= (s_arr %s) %s)", v, T))
+			}
+		}
+		for i := range ts {
+			if i == ref {
+				continue
+			}
+			hb := strings.Fields(ts[i])
+			if len(hb) != len(ha) {
+				continue
+			}
+			var agree []string
+			for j := range ha {
+				if ha[j] != hb[j] {
+					agree = append(agree, fmt.Sprintf("(= (select %s fr_r) (select %s fr_r))", ha[j], hb[j]))
+				}
+			}
+			if len(agree) == 0 {
+				continue
+			}
+			appA := "(" + f + " " + strings.Join(append(append([]string(nil), args...), ha...), " ") + ")"
+			appB := "(" + f + " " + strings.Join(append(append([]string(nil), args...), hb...), " ") + ")"
+			concl := fmt.Sprintf("(= %s %s)", appA, appB)
+			if len(argOK) > 0 {
+				concl = fmt.Sprintf("(=> %s %s)", and(argOK...), concl)
+			}
+			if len(binders) > 0 {
+				concl = fmt.Sprintf("(forall (%s) (! %s :pattern (%s) :pattern (%s)))", strings.Join(binders, " "), concl, appA, appB)
+			}
+			out = append(out, fmt.Sprintf("(=> (forall ((fr_r Int)) (=> (<= fr_r %s) %s)) %s)", T, and(agree...), concl))
+		}
+	}
+	return out
 }
